@@ -141,6 +141,27 @@ func execLabel(c LabelCase) ev.Verdict {
 			}
 		}
 	}
+	// stable: what a caller does with a label it was handed (dawn's own callers set the kind and project of a
+	// parsed label and walk its package upwards, in place) never changes what the text parses to later on
+	orig := *l
+	for _, pkg := range pkgs[:3] {
+		if r, err := l.RelativeTo(pkg); err == nil {
+			r.Kind, r.Project = "module", "elsewhere"
+			for len(r.Package) > 2 && strings.Contains(r.Package[2:], "/") {
+				r.Package = r.Package[:strings.LastIndexByte(r.Package, '/')]
+			}
+		}
+	}
+	l.Kind, l.Project, l.Package, l.Name = "module", "elsewhere", "//", "default"
+	again, err, p := safeParse(c.Raw)
+	if p != nil || err != nil {
+		v.Fail, v.Sig = fmt.Sprintf("Parse(%q) succeeded once and then failed: %v %v", c.Raw, err, p), "parse-not-stable"
+		return v
+	}
+	if *again != orig {
+		v.Fail, v.Sig = fmt.Sprintf("Parse(%q) gave %#v, and after the caller had edited the label it was handed, %#v", c.Raw, orig, *again), "parse-not-stable"
+		return v
+	}
 	return v
 }
 
